@@ -6,8 +6,8 @@ import (
 	"fmt"
 	"math"
 	"os"
-	"runtime/debug"
 	"reflect"
+	"runtime/debug"
 	"strings"
 	"time"
 
@@ -24,6 +24,9 @@ type Input struct {
 	Pre     int      `json:"pre"`               // rows inserted (and half of them deleted) before the case
 	MapKeys string   `json:"mapkeys,omitempty"` // col | name
 	NoMMap  bool     `json:"nommap,omitempty"`  // skip the Model(&T{}).Take(&map) read (types with serializer fields: known finding)
+	Naming  string   `json:"naming,omitempty"`  // "" | prefix | nolower | replacer (Config.NamingStrategy)
+	QF      bool     `json:"qf,omitempty"`      // Config.QueryFields
+	CBS     int      `json:"cbs,omitempty"`     // Config.CreateBatchSize
 	Spec    []GField `json:"spec,omitempty"`    // run-time generated struct type (reflect.StructOf); Type = "gen_<n>"
 	XRecs   [][]Val  `json:"xrecs,omitempty"`   // values of struct leaves that gorm mapped to no column (normally none)
 	Recs    [][]Val  `json:"recs"`              // canonical values per record, in column (DBNames) order
@@ -54,7 +57,7 @@ var nowPinned = time.Date(2024, 3, 5, 6, 7, 8, 123456789, time.UTC)
 
 func markIdx(d *Desc) int {
 	for i, f := range d.Fields {
-		if f.Col == "mark" {
+		if len(f.Path) == 1 && f.Path[0] == "Mark" {
 			return i
 		}
 	}
@@ -71,8 +74,9 @@ func run(in Input) (o Obs) {
 	if isGen(in.Type) {
 		registerGen(in.Type, in.Spec)
 	}
+	curNaming = in.Naming
 	d := descOf(in.Type)
-	db, _, sqlDB, err := gdb.Open(gdb.Opt{NoReturning: in.NoRet, Config: &gorm.Config{NowFunc: func() time.Time {
+	db, _, sqlDB, err := gdb.Open(gdb.Opt{NoReturning: in.NoRet, Config: &gorm.Config{NamingStrategy: namingOf(in.Naming), QueryFields: in.QF, CreateBatchSize: in.CBS, NowFunc: func() time.Time {
 		// a moving clock: every reading is clockStep later than the previous one
 		t := nowPinned.Add(time.Duration(clockReads) * clockStep)
 		clockReads++
